@@ -3,7 +3,7 @@
 #include "hcommon.h"
 #include "libMultiMarkdown.h"
 #include "token.h"
-extern unsigned long verif_pair_steps;
+extern __thread unsigned long verif_pair_steps;
 void verif_token_pool_state(long * count, long * has_pool, long * slabs, long * remaining);
 
 int main(void) {
